@@ -961,6 +961,11 @@ class Facts:
         self.bodies = {}
         for b in self.j["bodies"]:
             self.bodies.setdefault(b["path"], []).append(b)
+        # functions that only changed module keep answering to their reviewed path
+        for newp, oldp in (self.j.get("moved") or {}).items():
+            for p_ in list(self.bodies):
+                if p_ == newp or p_.startswith(newp + "::{closure"):
+                    self.bodies.setdefault(oldp + p_[len(newp):], self.bodies[p_])
         self._cache = {}
         self.adts = {a["path"]: a for a in self.j["adts"]}
         self.impls = self.j["impls"]
@@ -984,11 +989,15 @@ class Facts:
 
     def find_bodies(self, pat, include_absorbed=False):
         out = []
+        seen = set()
         for p, lst in self.bodies.items():
             if re.search(pat, p):
                 for j in lst:
                     if j.get("absorbed") and not include_absorbed:
                         continue
+                    if id(j) in seen:
+                        continue  # the same body under its reviewed (pre-move) path
+                    seen.add(id(j))
                     key = (p, id(j))
                     if key not in self._cache:
                         self._cache[key] = Body(j, self)
@@ -1000,7 +1009,8 @@ class Facts:
 
     def coroutine_of(self, fn_path):
         """The async body (closure with coroutine_kind) whose parent is fn_path."""
-        c = [b for p, lst in self.bodies.items() for b in lst if b.get("parent") == fn_path and b.get("coroutine_kind")]
+        alias = {o: n for n, o in (self.j.get("moved") or {}).items()}
+        c = list({id(b): b for p, lst in self.bodies.items() for b in lst if b.get("parent") in (fn_path, alias.get(fn_path)) and b.get("coroutine_kind")}.values())
         if len(c) != 1:
             raise AnchorMissing("async body of `%s` not found (%d candidates)" % (fn_path, len(c)))
         key = (c[0]["path"], "co")
